@@ -24,6 +24,7 @@ var two32 = new(big.Int).Lsh(big.NewInt(1), 32)
 func bu(v uint64) *big.Int { return new(big.Int).SetUint64(v) }
 
 func c31(r *engine.Run) {
+	r.RaceWorkload = "text" // supplement: free-running race-detector pass over the same API (can only add findings)
 	L := lattice.L64()
 	L32 := lattice.L32()
 	var evals int64
